@@ -630,7 +630,7 @@ func (s SqlBuilder) GetTableName(t interface{}) (string, string) {
 	}
 
 	if s.pluralTableName {
-		name = name + "s"
+		return name, utils.ToSnakeCase(name + "s")
 	}
 	return name, utils.ToSnakeCase(name)
 }
